@@ -90,6 +90,7 @@ type PatGuard struct {
 	Pattern *regexp.Regexp
 	Ordinal int // 0 = every call site; n = the n-th call site (source order) of a matching callee
 	Cond    Clause
+	Fresh   bool // guard-store "+pattern": also stores into objects allocated by this call
 }
 
 type SpecMacro struct {
@@ -446,6 +447,11 @@ func (cs *ContractSet) LoadFile(path, defaultPkg string) {
 					m[1] = mo[1]
 					fmt.Sscanf(mo[2], "%d", &ord)
 				}
+				freshToo := false
+				if word == "guard-store" && strings.HasPrefix(m[1], "+") {
+					freshToo = true
+					m[1] = m[1][1:]
+				}
 				pat := "^(" + m[1] + ")$"
 				if word == "guard-store" {
 					pat = m[1] // leaf names carry a package prefix: search, do not anchor
@@ -465,9 +471,9 @@ func (cs *ContractSet) LoadFile(path, defaultPkg string) {
 					c.Label = word
 				}
 				if word == "guard-call" {
-					cur.CallGuards = append(cur.CallGuards, PatGuard{false, rx, ord, c})
+					cur.CallGuards = append(cur.CallGuards, PatGuard{false, rx, ord, c, false})
 				} else {
-					cur.StoreGuards = append(cur.StoreGuards, PatGuard{false, rx, 0, c})
+					cur.StoreGuards = append(cur.StoreGuards, PatGuard{false, rx, 0, c, freshToo})
 				}
 			case "guard":
 				c, err := parseClause(rest, src)
